@@ -238,7 +238,7 @@ func init() {
 		ID:   "C08",
 		Desc: "path coherence under rename/unlink, fencing of deleted paths (identity model + path-based backend)",
 		Run:  runC08,
-		Quick: 96000, Thorough: 1500000, QuickSecs: 60, ThorSecs: 1500,
+		Quick: 96000, Thorough: 4500000, QuickSecs: 60, ThorSecs: 1500,
 		Rule:  "random histories of 8-68 requests (walk 1-3 components, clone, mkdir, create, rename, renameat incl. over existing targets and whole subtrees, unlinkat, remove, clunk, open/write) on 1-2 lock-step connections with up to 8 fids each on the same and nested paths of a depth-3 tree over names {a,b,c}. After EVERY request: (1) every live handle of the path-based backend resolves to the object it was bound to; (2) Tgetattr through every unfenced fid on every connection reports the bound inode; (3) fenced fids answer a child walk as the session model prescribes; (4) a successful rename put the inode where the request said; all replies also checked against the C04 session model (fencing errnos, no backend call). Non-trivial = the history contains a rename or unlink.",
 		Assume: []string{"object identity = backend inode number; fenced = the backend's own record that the directory entry the handle named was removed or overwritten"},
 		Real:   []string{"p9.Server", "p9 path tree / fid table / handlers", "p9 wire codec"},
